@@ -1,4 +1,8 @@
-import Props.Cells
+import Props.C11
 import Props.C13
 import Props.C16
+import Props.C17
 import Props.C18
+import Props.C19
+import Props.C20
+import Props.Cells
